@@ -276,14 +276,25 @@ def toList : T → List (Int × Nat)
   | nil => []
   | node l k v _ r => toList l ++ (k, v) :: toList r
 
+/-- `lo < k`, no bound when `lo` is `none` -/
+def gtLo (lo : Option Int) (k : Int) : Bool :=
+  match lo with
+  | none => true
+  | some x => decide (x < k)
+
+/-- `k < hi`, no bound when `hi` is `none` -/
+def ltHi (hi : Option Int) (k : Int) : Bool :=
+  match hi with
+  | none => true
+  | some x => decide (k < x)
+
 /-- executable check of the structural part of the property (what the harness
 recomputes from the real pointers): strict search order within the open interval
 `(lo, hi)`, stored balance = height(right) − height(left), |balance| ≤ 1 -/
 def wellFormed : Option Int → Option Int → T → Bool
   | _, _, nil => true
   | lo, hi, node l k _ b r =>
-    (match lo with | none => true | some x => decide (x < k)) &&
-    (match hi with | none => true | some x => decide (k < x)) &&
+    gtLo lo k && ltHi hi k &&
     decide (b = (height r : Int) - (height l : Int)) &&
     decide (-1 ≤ b ∧ b ≤ 1) &&
     wellFormed lo (some k) l && wellFormed (some k) hi r
